@@ -91,8 +91,12 @@ Definition len {A} (l : list A) : N := N.of_nat (length l).
 (* ---- configuration of one handler ---- *)
 Inductive pkg := Legacy | ResB.
 Inductive rtype := TModel | TColl.
-(* Type option: map[string]interface{} / []interface{} (or unset)  |  map[string]float64 / []float64 *)
-Inductive ty := TyAny | TyNum.
+(* Type option: map[string]interface{} / []interface{} (or unset)  |  map[string]float64 / []float64
+   |  for a model  struct { A float64 `json:"a"`; B string `json:"b"` }  (for a collection TyStruct
+   stands for []interface{}) *)
+Inductive ty := TyAny | TyNum | TyStruct.
+Definition fld_a : key := [97].
+Definition fld_b : key := [98].
 (* Index.Key callback: None = nil slice, Some [] = empty non-nil slice *)
 Definition keyfn := res -> option bytes.
 Record cfg := Cfg {
@@ -111,10 +115,22 @@ Definition vfits (t : ty) (v : jval) : bool :=
   match t with
   | TyAny => true
   | TyNum => match v with JNum _ => true | _ => false end
+  | TyStruct => true
+  end.
+(* the JSON of a value of the struct type: both fields, in declaration order, nothing else *)
+Definition sfits (m : jmodel) : bool :=
+  match m with
+  | [(k1, JNum _); (k2, JStr _)] => beq k1 fld_a && beq k2 fld_b
+  | _ => false
+  end.
+Definition mfits (t : ty) (m : jmodel) : bool :=
+  match t with
+  | TyStruct => sfits m
+  | _ => forallb (fun kv => vfits t (snd kv)) m
   end.
 Definition fits (c : cfg) (r : res) : bool :=
   match c_type c, r with
-  | TModel, RModel m => forallb (fun kv => vfits (c_ty c) (snd kv)) m
+  | TModel, RModel m => mfits (c_ty c) m
   | TColl, RColl l => forallb (vfits (c_ty c)) l
   | _, _ => false
   end.
@@ -124,6 +140,7 @@ Definition vdec (t : ty) (v : jval) : option jval :=
   match t with
   | TyAny => Some v
   | TyNum => match v with JNum n => Some (JNum n) | JNull => Some (JNum 0) | _ => None end
+  | TyStruct => Some v
   end.
 Fixpoint dec_list (t : ty) (l : list jval) : option (list jval) :=
   match l with
@@ -137,9 +154,23 @@ Fixpoint dec_model (t : ty) (m : jmodel) : option jmodel :=
   | (k, v) :: m' =>
     match vdec t v, dec_model t m' with Some v', Some r => Some ((k, v') :: r) | _, _ => None end
   end.
+(* into the struct: a missing or null member leaves the zero value, a member of another JSON kind is an
+   error, members the struct does not declare are dropped; null as a whole leaves the zero struct *)
+Definition dec_struct (m : jmodel) : option jmodel :=
+  match (match mget fld_a m with None | Some JNull => Some (JNum 0) | Some (JNum n) => Some (JNum n) | _ => None end),
+        (match mget fld_b m with None | Some JNull => Some (JStr []) | Some (JStr x) => Some (JStr x) | _ => None end) with
+  | Some va, Some vb => Some [(fld_a, va); (fld_b, vb)]
+  | _, _ => None
+  end.
 Definition decode (c : cfg) (r : res) : option res :=
   match c_type c, r with
-  | TModel, RModel m => option_map RModel (dec_model (c_ty c) m)
+  | TModel, RModel m =>
+    match c_ty c with
+    | TyStruct => option_map RModel (dec_struct m)
+    | t => option_map RModel (dec_model t m)
+    end
+  | TModel, RNull =>
+    match c_ty c with TyStruct => option_map RModel (dec_struct []) | _ => Some RNull end
   | TColl, RColl l => option_map RColl (dec_list (c_ty c) l)
   | _, RNull => Some RNull                              (* null into a map / slice type: nil, no error *)
   | _, _ => None
